@@ -302,6 +302,11 @@ func runC10(p *an.Prog, r *an.Run, tier string) {
 	sort.Strings(gkeys)
 	r.Note("guarded field set G (fields of mutex-bearing types written in scope): %s", strings.Join(gkeys, ", "))
 	r.Floor("guarded-fields-found", len(gkeys), 8)
+	if tier == "thorough" {
+		for k := range c10FieldExceptions {
+			r.Check(written[k], "guarded-fields", "exception-audit:"+k, token.NoPos, "named exception still matches a field written in scope", "the named exception %s matches no field written in the concurrency scope: the table entry is stale", k)
+		}
+	}
 	for _, k := range gkeys {
 		if why, ok := c10FieldExceptions[k]; ok {
 			r.Ok("guarded-fields", k, token.NoPos, "named exception: "+why)
